@@ -40,7 +40,7 @@ def main(only=None):
         print(f"{st:>22}  {name}")
         for a in alarms:
             print("        ", a)
-    json.dump([{"patch": n, "status": s, "alarms": a} for n, s, a in rows], open(os.path.join(harness.VERIF, "evidence", "benign.json"), "w"), indent=1)
+    json.dump([{"patch": n, "status": s, "alarms": a} for n, s, a in rows], open(os.path.join(harness.VERIF, "selfcheck", "benign.json"), "w"), indent=1)
     return 1 if bad else 0
 
 if __name__ == "__main__":
